@@ -2,6 +2,7 @@ extern crate iceoryx2_bb_loggers;
 mod common;
 mod c15_alloc;
 mod c16_vec;
+mod c19_names;
 mod c16_queue;
 mod c16_slotmap;
 mod c16_string;
@@ -33,6 +34,7 @@ fn main() {
     }
     match comp {
         "alloc" => go!(c15_alloc::generate, || c15_alloc::AllocComp::new()),
+        "names" => go!(c19_names::generate, || c19_names::NamesComp::new()),
         "vec" => go!(c16_vec::generate, || c16_vec::VecComp::new()),
         "queue" => go!(c16_queue::generate, || c16_queue::QueueComp::new()),
         "string" => go!(c16_string::generate, || c16_string::StrComp::new()),
